@@ -7,7 +7,7 @@ import runner, sessgen, tlcutil
 
 ACTSETS = {
     "C01": lambda a: a.startswith(("plain-app", "forge-app", "forge-badseq", "reflect", "replay", "none", "dup", "swap",
-                                   "plain-unknown", "garbage", "mod-type", "mod-body0", "mod-last")),
+                                   "plain-unknown", "garbage", "mod-type", "mod-body0", "mod-last", "takeover")),
     "C06": lambda a: a.startswith(("plain-hs", "forge-hs", "plain-ccs", "forge-ccs", "hs-", "drop", "dup", "swap", "mod-",
                                    "replay", "trunc", "none")),
     "C15": lambda a: a.startswith(("plain-alert", "forge-alert", "garbage", "mod-", "trunc", "plain-unknown", "forge-badseq",
@@ -83,6 +83,8 @@ def main(prop, tier, seed):
         for k in range(0, N + 2):
             for target in ("c0", "s0"):
                 for act in A:
+                    if act[0].startswith("takeover") and not (cfg["fam"] == "T13" and target == "s0" and k <= 4):
+                        continue
                     for c in sessgen.CONTS:
                         eps.append(dict(cfg=cfg["name"], k=k, target=target, act=act[0], cont=c[0], _cfg=cfg, _act=act, _cont=c))
     total_space = len(eps)
@@ -91,7 +93,7 @@ def main(prop, tier, seed):
         # keep every (cfg, action) pair at least once, then fill up to the budget
         seen, keep, rest = set(), [], []
         for e in eps:
-            key = (e["cfg"], e["act"], e["target"])
+            key = (e["cfg"], e["act"], e["target"], e["k"] if e["act"].startswith("takeover") else -1)
             if key not in seen:
                 seen.add(key); keep.append(e)
             else:
